@@ -58,6 +58,7 @@ Definition repo_m_UpdateRuleSet : list stmt :=
       [];
    SEv (ERead 1);
    SEv (EWrite 1);
+   SEv (EWrite 1);
    SEv (ERead 1);
    SEv (EWrite 1);
    SEv (ELock 1);
@@ -79,6 +80,7 @@ Definition repo_m_DeleteRuleSet : list stmt :=
    SIf [SReturn]
       [];
    SEv (ERead 1);
+   SEv (EWrite 1);
    SEv (EWrite 1);
    SEv (ELock 1);
    SEv (EStore 2 1);
